@@ -502,4 +502,23 @@ Proof.
     (assert (Q0 : (0 <= q)%Q) by (unfold minsq in Hq; apply in_map_iff in Hq; destruct Hq as [c [<- _]]; apply minsq1_nonneg));
     apply (sqrt_enclosure p q Q0).
 Qed.
+
+Lemma qsum_red_eq l : (qsum_red l == qsum l)%Q.
+Proof.
+  induction l as [|a l IH]; [reflexivity|].
+  change (qsum_red (a :: l)) with (Qred (a + qsum_red l)). change (qsum (a :: l)) with (a + qsum l)%Q.
+  rewrite Qred_correct, IH. reflexivity.
+Qed.
+
+Lemma gd_enclosure_red_eq p ref comp :
+  (fst (gd_enclosure_red p ref comp) == fst (gd_enclosure p ref comp))%Q /\
+  (snd (gd_enclosure_red p ref comp) == snd (gd_enclosure p ref comp))%Q.
+Proof. unfold gd_enclosure_red, gd_enclosure. cbn [fst snd]. rewrite !qsum_red_eq. split; reflexivity. Qed.
+
+Theorem gd_enclosure_red_sound : forall p ref comp, ref <> [] -> comp <> [] ->
+  Q2R (fst (gd_enclosure_red p ref comp)) <= gd (embed ref) (embed comp) <= Q2R (snd (gd_enclosure_red p ref comp)).
+Proof.
+  intros p ref comp NR NC. destruct (gd_enclosure_red_eq p ref comp) as [E1 E2].
+  rewrite (Qeq_eqR _ _ E1), (Qeq_eqR _ _ E2). apply gd_enclosure_sound; assumption.
+Qed.
 End Encl.
